@@ -1696,6 +1696,10 @@ impl ReaderState {
             #[cfg(feature = "Debug_Reader")]
 
             debug!(" scxml.datamodel = {}", datamodel.unwrap());
+            // W3C: a document that names a data model the processor does not support must be rejected.
+            if !crate::fsm::is_datamodel_supported(datamodel.unwrap()) {
+                panic!("{}: unsupported value {}", ATTR_DATAMODEL, datamodel.unwrap())
+            }
             self.fsm.datamodel = datamodel.unwrap().to_string();
         }
 
